@@ -213,8 +213,21 @@ def rngOfTable (tab : List (List Int64 × Int64)) : Rng :=
 def callLine (ownWo : Bool) (tc : TestCase) (c : Call) : String :=
   "call " ++ (match c.kind with | .readWrite => "rw" | .writeOnly => if ownWo then "wo" else "rw") ++ " in=" ++ dumpInputs tc c.inputs
 
+/-- does the expression draw random numbers? -/
+partial def exprHasRandom : Expr → Bool
+  | .num _ => false
+  | .var _ => false
+  | .un _ e => exprHasRandom e
+  | .bin _ l r => exprHasRandom l || exprHasRandom r
+  | .call f args => f == "random" || args.any exprHasRandom
+
+/-- Items of a run.  Up to and including the first error item this is what every comparison uses.  Behind a
+`posterr` marker the run is continued while the error items come from the IO step (a call was made) — the
+state the model returns for those is the code's — up to five error items in all; it stops at the first
+evaluation error (no call), and, when a virtual signal draws random numbers, at the first error found in an
+answer (the generator state after a partly evaluated answer is not modelled). -/
 partial def runItems (ownWo : Bool) (tc : TestCase) (drv : Driver (List DrvResp)) (cap : Nat) (k : Nat) (s : RowIt) (d : List DrvResp)
-    (acc : Array String) : Array String :=
+    (nErr : Nat) (virtRandom : Bool) (acc : Array String) : Array String :=
   if k ≥ cap then acc.push ("item " ++ toString k ++ " cap")
   else
     match s.next tc drv 200000 d with
@@ -229,14 +242,18 @@ partial def runItems (ownWo : Bool) (tc : TestCase) (drv : Driver (List DrvResp)
         | _ => false
       (acc.push ("item " ++ toString k ++ " none" ++ (if again then "" else " NOT-STICKY"))).push
         ("rng draws=" ++ toString s'.ctx.rng.total)
-    | .item (.err e) _ _ calls =>
+    | .item (.err e) s' d' calls =>
       let acc := calls.foldl (fun a c => a.push (callLine ownWo tc c)) acc
-      (acc.push ("item " ++ toString k ++ " err " ++ errClass e)).push ("# " ++ errDetail e)
+      let acc := (acc.push ("item " ++ toString k ++ " err " ++ errClass e)).push ("# " ++ errDetail e)
+      let acc := if nErr == 0 then acc.push "posterr" else acc
+      let isDriver := match e with | .driver _ => true | _ => false
+      if calls.isEmpty || nErr + 1 ≥ 5 || (!isDriver && virtRandom) then acc
+      else runItems ownWo tc drv cap (k + 1) s' d' (nErr + 1) virtRandom acc
     | .item (.row r) s' d' calls =>
       let acc := calls.foldl (fun a c => a.push (callLine ownWo tc c)) acc
       let acc := acc.push ("item " ++ toString k ++ " row line=" ++ toString r.line ++ " in=" ++ dumpInputs tc r.inputs ++
         " out=" ++ dumpOutputs tc r ++ " vars=" ++ dumpVars s'.vars)
-      runItems ownWo tc drv cap (k + 1) s' d' acc
+      runItems ownWo tc drv cap (k + 1) s' d' nErr virtRandom acc
 
 partial def runStatic (tc : TestCase) (cap : Nat) (k : Nat) (s : RowIt) (acc : Array String) : Array String :=
   if k ≥ cap then acc.push ("sitem " ++ toString k ++ " cap")
@@ -299,7 +316,8 @@ def cmdRun (c : Cur) : Array String := Id.run do
         | .ok s d log =>
           out := log.foldl (fun a c => a.push (callLine (ownWo == 1) tc c)) out
           out := out.push "ctor ok"
-          out := runItems (ownWo == 1) tc drv cap 0 s d out
+          let virtRandom := tc.signals.any (fun sg => match sg.typ with | .virt e => exprHasRandom e | _ => false)
+          out := runItems (ownWo == 1) tc drv cap 0 s d 0 virtRandom out
   return out
 
 def cmdLex (c : Cur) : Array String :=
